@@ -1196,6 +1196,14 @@ func (x *Exec) defineSpecFun(sf *SpecFunc) {
 	if _, ok := x.sym.decl[n]; ok {
 		return
 	}
+	if sf.Body == nil {
+		var as []Sort
+		for _, p := range sf.Params {
+			as = append(as, p.Sort)
+		}
+		x.sym.declareFun(n, as, sf.Ret)
+		return
+	}
 	if sf.Rec {
 		// declare first so the body can mention it
 		x.sym.decl[n] = ""
@@ -1783,7 +1791,7 @@ func (x *Exec) ghostEventQuery(sc *specCtx, kind string, args []ast.Expr) Value 
 				return ev.Results[idx]
 			}
 			if idx >= len(ev.Args) {
-				panic(engineErr("arg(%s): argument index out of range", exprString(args[0])))
+				return PoisonV{} // this event has no such argument (e.g. an interface call: receiver not counted)
 			}
 			return ev.Args[idx]
 		}
@@ -1831,7 +1839,7 @@ func (x *Exec) ghostEventQuery(sc *specCtx, kind string, args []ast.Expr) Value 
 		}
 		ev := evs[occ-1]
 		if ai >= len(ev.Args) {
-			panic(engineErr("arg(%s): argument index out of range", exprString(args[0])))
+			return PoisonV{} // this event has no such argument (e.g. an interface call: receiver not counted)
 		}
 		return ev.Args[ai]
 	}
